@@ -432,7 +432,7 @@ fn main() {
     check.assume("ciphertext bytes differ between runs (library RNG); the oracle never depends on them");
     check.assume("completion is only required for profiles Clean/Strict (<=6 loss-equivalent datagrams, limits >=1); 'no hang by 300 s virtual' for Moderate/Blackhole; safety + no send storm for Perpetual");
     check.max_shrink_iters = 150;
-    let n = check.pick(1_200, 60_000);
+    let n = check.pick(2_400, 60_000);
     check.stage("simnet", n, 16, case_strategy, oracle);
     check.finish();
 }
